@@ -56,17 +56,24 @@ def execute(mod, wl, i, traced, k, fault, tbl, rate=None):
     mod.Lazy.resolved = 0
     out = io.StringIO()
     marker = lambda *a: None          # a pre-installed profiler
-    sys.setprofile(marker)
+    earlier = lambda *a: None         # the profiler that is installed while the context manager is only being created
     logger = None
+    cm = None
+    if traced:
+        # the context manager is created first and entered later, after the program has installed another profiler: the one
+        # to put back is the one found at entry
+        from monkeytype.tracing import trace_calls
+        logger = tracerun.ListLogger(fail_log_at=fault[1], fail_flush=fault[2])
+        admit = lambda code: code.co_filename == mod.__file__
+        sys.setprofile(earlier if i % 2 else None)
+        cm = trace_calls(logger, k, admit, rate)
+    sys.setprofile(marker)
     try:
         f = eval(wl, {})
         with contextlib.redirect_stdout(out):
             try:
                 if traced:
-                    from monkeytype.tracing import trace_calls
-                    logger = tracerun.ListLogger(fail_log_at=fault[1], fail_flush=fault[2])
-                    admit = lambda code: code.co_filename == mod.__file__
-                    with trace_calls(logger, k, admit, rate):
+                    with cm:
                         res = ("ok", describe(f(mod, i)))
                 else:
                     res = ("ok", describe(f(mod, i)))
